@@ -378,7 +378,7 @@ func runC11(w *World, c *Check) {
 			}
 			reported[k] = true
 			// exemption: the goroutine started by the function that wrote the channel receives from it
-			if !good && g.field == "cancel" && !write && ctx.Fn.Parent() != nil {
+			if !good && g.field == "cancel" && !write && (ctx.Fn.Parent() != nil || onlyStartedByGo(w, ctx.Fn)) {
 				c.Note("C11.guarded", fk, construct, where, "read of the cancel channel in the renewal goroutine: written (under the lock) before the go statement that starts it")
 				return
 			}
@@ -600,4 +600,19 @@ func ruleKeyBytesImmutable(w *World, c *Check, rule string) {
 			c.Ok(rule, k, "key-bytes", w.Pos(fn.Pos()), "reads key bytes without writing them in place")
 		}
 	}
+}
+
+// onlyStartedByGo: every call of fn in the module is a go statement — fn is a goroutine body
+// (the named-method spelling of `go func() {…}()`).
+func onlyStartedByGo(w *World, fn *ssa.Function) bool {
+	n := w.CallGraph().Nodes[fn]
+	if n == nil || len(n.In) == 0 {
+		return false
+	}
+	for _, e := range n.In {
+		if _, isGo := e.Site.(*ssa.Go); !isGo {
+			return false
+		}
+	}
+	return true
 }
